@@ -103,12 +103,14 @@ def gen_recipe(rnd, leaves):
 
 # operators applied to one small integer leaf x, written so that plain ints and secret ints stay inside every operator's domain;
 # the constants in them are constants of the circuit, never public values
-INT_OPS = ["rsubc", "modc", "rmodc", "floordivc", "rfloordivc", "rdivmodc", "shr", "andc", "rorc", "rxorc", "abs", "neg", "rmulc", "powc", "rtruedivc"]
+INT_OPS = ["rsubc", "modc", "rmodc", "floordivc", "rfloordivc", "rdivmodc", "shr", "andc", "rorc", "rxorc", "abs", "neg", "rmulc", "powc", "rtruedivc", "divself", "rdivself"]
 INT_FN = {
     "rsubc": lambda x: 7 - x, "modc": lambda x: (x * x) % 7, "rmodc": lambda x: 100 % (x * x + 1), "floordivc": lambda x: (x * x) // 3,
     "rfloordivc": lambda x: 100 // (x * x + 1), "rdivmodc": lambda x: divmod(50, x * x + 1)[1], "shr": lambda x: (x * x) >> 1,
     "andc": lambda x: (x * x) & 6, "rorc": lambda x: 5 | ((x * x) & 3), "rxorc": lambda x: 9 ^ ((x * x) & 7), "abs": lambda x: abs(x),
     "neg": lambda x: -x, "rmulc": lambda x: 3 * x, "powc": lambda x: x ** 2, "rtruedivc": lambda x: (6 * x) / 3,
+    # secret / secret and constant / secret (exact): the error path of these allocates its own dummy result
+    "divself": lambda x: (x * (x * x + 1)) / (x * x + 1), "rdivself": lambda x: (x * 0 + 12) / (x * 0 + 4),
 }
 
 
@@ -150,8 +152,9 @@ def shape_results(rnd_seed, vals):
     """deterministically nest a flat list of result leaves into list/tuple/dict containers"""
     rnd = random.Random(rnd_seed)
     vals = list(vals)
-    if len(vals) == 1 and rnd.random() < 0.5:
-        return vals[0]
+    if len(vals) == 1:
+        # a single result in every shape a function may hand it back in (a 1-tuple is not its element)
+        return rnd.choice([vals[0], vals[0], (vals[0],), [vals[0]], {"only": vals[0]}, ([vals[0]],)])
     k = rnd.random()
     if k < 0.4 or len(vals) < 2:
         return list(vals)
